@@ -76,7 +76,7 @@ def task(W, payload):
                 p = dict(params); p.update(extra)
                 try:
                     got = float(np.asarray(call(float(tt), p)))
-                except Exception as e:
+                except BaseException as e:
                     fail(out, f"{name} raised at x={x}", "c16", payload, fn=name, points=[q(v) for v in a], x=q(x), err=str(e)[:200]); continue
                 op = {"op": "timefn", "fn": name, "x": q(x), "a": [q(v) for v in a], "b": [q(v) for v in b]}
                 if name == "sig":
@@ -100,7 +100,7 @@ def task(W, payload):
                     sca = np.array([float(np.asarray(call(float(x), params))) for x in xs_eval])
                     if not vec_close(list(vec), list(sca), 1e-12):
                         fail(out, f"vectorised evaluation of {name} differs from scalar evaluation", "c16", payload, fn=name, points=[q(v) for v in a])
-                except Exception as e:
+                except BaseException as e:
                     fail(out, f"vectorised evaluation of {name} raised", "c16", payload, err=str(e)[:200])
     if payload.get("rolling"):
         for _ in range(20):
